@@ -65,8 +65,39 @@ def count_violations(fnode):
 def run(ctx):
     R = ctx.R
     fi = ctx.fn("bits.p2p.write_blocks_to_disk")
-    # ---- OWN
-    viol, n_open = own_violations(fi.node)
+    # ---- OWN: over the function and every package function it (transitively) calls -- the store may live in a helper,
+    # a class or another module
+    nodes, seen_q = [fi.node], {fi.qualname}
+    work = [fi]
+    while work:
+        f = work.pop()
+        for n in ast.walk(f.node):
+            if not isinstance(n, ast.Call):
+                continue
+            parts = dotted_parts(n.func)
+            cands = []
+            if parts:
+                r = ctx.prog.resolve_chain(f.module.name, parts)
+                if r is not None and r[0] == "func":
+                    cands.append(r[1])
+                elif r is not None and r[0] == "class":
+                    cands.extend(m for m in r[1].classes.get(r[2], {}).values())
+            if isinstance(n.func, ast.Attribute):
+                # a method call on an object: every method of that name on a class of the package that is instantiated here
+                for mod in ctx.prog.modules.values():
+                    for cname, meths in mod.classes.items():
+                        if n.func.attr in meths and any(isinstance(c, ast.Call) and (dotted_parts(c.func) or [""])[-1] == cname for ff in (fi,) + tuple(work) for c in ast.walk(ff.node)):
+                            cands.append(meths[n.func.attr])
+            for c in cands:
+                if c.qualname not in seen_q and c.qualname.startswith("bits."):
+                    seen_q.add(c.qualname)
+                    nodes.append(c.node)
+                    work.append(c)
+    viol, n_open = [], 0
+    for nd in nodes:
+        v_, n_ = own_violations(nd)
+        viol.extend(v_)
+        n_open += n_
     for node, msg in viol:
         R.check("C19.1", "OWN", fi, node, False, "append-only violated: " + msg, example="a crash during a write, or a second batch")
     R.check("C19.1", "OWN", fi, "block files only opened with mode 'ab', never repositioned / truncated / renamed", not viol, "")
